@@ -86,6 +86,13 @@ def _worker(args):
     except BaseException as e:  # harness bug or non-determinism: make it visible, never a pass
         return dict(stats={}, violations=[], samples=[], notes={}, exhausted=False, wall=0.0, cuts=[], functions=[],
                     inconclusive=["worker error: %s: %s\n%s" % (type(e).__name__, e, traceback.format_exc()[-1500:])])
+    finally:
+        try:
+            from harness.common import cleanup_scratch
+
+            cleanup_scratch()
+        except Exception:
+            pass
 
 
 def run_obligation(name, spec, bounds, opts=None, shard_depth=None, log=None):
@@ -159,10 +166,18 @@ def run_obligation(name, spec, bounds, opts=None, shard_depth=None, log=None):
 
 def _replay(args):
     spec, assignment = args
-    fn = _load(spec)
-    cx = ConcreteExplorer(assignment)
-    status = cx.run(fn)
-    return status, [dict(v) for v in cx.violations]
+    try:
+        fn = _load(spec)
+        cx = ConcreteExplorer(assignment)
+        status = cx.run(fn)
+        return status, [dict(v) for v in cx.violations]
+    finally:
+        try:
+            from harness.common import cleanup_scratch
+
+            cleanup_scratch()
+        except Exception:
+            pass
 
 
 def replay(spec, assignment, isolate=True):
